@@ -28,7 +28,7 @@ def gen_random(rng, n, univ=3):
     ops, calls, c, vins, vres = [], {}, 0, 100, 1000
     used_opt, used_req = set(), set()
     for _ in range(n):
-        a = rng.choices(["call", "opt", "req", "insert", "remove", "dropc"], [34, 18, 24, 10, 7, 7])[0]
+        a = rng.choices(["call", "opt", "req", "insert", "remove", "dropc", "insertph"], [34, 18, 24, 10, 7, 7, 4])[0]
         if a == "call":
             k = rng.randrange(univ)
             o, r = rng.choice([(0, 1), (0, 1), (1, 0), (1, 1), (1, 1), (0, 0)])
@@ -49,6 +49,8 @@ def gen_random(rng, n, univ=3):
                 ops.append(f"req f={x} res={res}" + (f" v={vres}" if res == "ok" else "")); vres += 1
         elif a == "insert":
             ops.append(f"insert k={rng.randrange(univ)} v={vins}"); vins += 1
+        elif a == "insertph":
+            ops.append(f"insertph k={rng.randrange(univ)} v={vins}"); vins += 1
         elif a == "remove":
             ops.append(f"remove k={rng.randrange(univ)}")
         elif a == "dropc" and calls:
@@ -194,7 +196,7 @@ def oracle_c06(lines):
             calls[kv["c"]] = (kv["k"], kv["opt"] == "1", kv["req"] == "1")
         if name == "dropc":
             dropped.add(kv["c"])
-        if name == "insert":
+        if name in ("insert", "insertph"):
             values.setdefault(kv["k"], set()).add(kv["v"])
         if name == "kill":
             for k0 in set(v[0] for v in calls.values()):
@@ -229,7 +231,7 @@ def oracle_c06(lines):
                         return (n, f"lookup-only caller {c} answered 'not found' although fetching caller {others[0]} had joined")
         # single flight per key: a second origin fetch for a key may start while an older one is still running
         # only if that older one was abandoned, i.e. an explicit insert of the key took its waiters in between
-        if name == "insert":
+        if name in ("insert", "insertph"):
             ins_at.setdefault(kv["k"], []).append(n)
         for f in live:
             if f not in fstart:
@@ -257,7 +259,7 @@ def oracle_c06(lines):
 
 def oracle_c11(lines):
     """an explicit insert answers the waiting callers with its value and is not replaced by a late fetch"""
-    calls, pinned = {}, {}
+    calls, pinned, absent_since = {}, {}, {}
     prev_callers = {}
     for n, l in enumerate(lines):
         name, kv, callers, live, started, mem = parse(l)
@@ -265,16 +267,25 @@ def oracle_c11(lines):
             calls[kv["c"]] = kv["k"]
             if mem.get(kv["k"]) is None and kv["k"] in pinned:
                 pass
-        if name == "insert":
+        if name in ("insert", "insertph"):
             k, v = kv["k"], kv["v"]
             for c, r in prev_callers.items():
                 if r == "P" and calls.get(c) == k and callers.get(c, "E" + v) != "E" + v:
                     return (n, f"caller {c} was waiting for key {k} when insert({k},{v}) completed but received {callers.get(c)}")
-            pinned[k] = v
+            # a disk-only insert leaves nothing resident: the key must stay absent until the next insert, or a fetch that
+            # STARTS later (a call made after this point)
+            pinned[k] = v if name == "insert" else None
+            if name == "insertph":
+                absent_since[k] = n
         if name == "remove":
-            pinned.pop(kv["k"], None)
+            pinned.pop(kv["k"], None); absent_since.pop(kv["k"], None)
+        if name == "call" and kv["k"] in absent_since:
+            pinned.pop(kv["k"], None); absent_since.pop(kv["k"], None)      # a new fetch may legitimately fill the key
         for k, v in pinned.items():
             if mem.get(k) != v:
+                if v is None:
+                    return (n, f"key {k}: a disk-only insert overtook the pending fetch, yet the late fetch result {mem.get(k)} "
+                               f"became resident afterwards")
                 return (n, f"key {k}: explicit insert of {v} was replaced by {mem.get(k)} without a later insert/remove")
         prev_callers = callers
     return None
@@ -288,8 +299,8 @@ def classify(lines):
     prev = {}
     for l in lines:
         name, kv, callers, live, started, mem = parse(l)
-        if name == "insert" and any(r == "P" for r in prev.values()):
-            fl.add("insert-during-fetch")
+        if name in ("insert", "insertph") and any(r == "P" for r in prev.values()):
+            fl.add("insert-during-fetch" if name == "insert" else "disk-only-insert-during-fetch")
         if len([c for c, r in callers.items() if r == "P"]) >= 2:
             fl.add("coalesced-waiters")
         if name == "req":
